@@ -1,9 +1,192 @@
 package main
 
-import "verifengine/vc"
+import (
+	"bytes"
+	"context"
+	"encoding/json"
+	"fmt"
+	"os"
+	"os/exec"
+	"path/filepath"
+	"strings"
+	"time"
 
-// replayModel tries to re-run a solver model against the real code.
-// (filled in by replay templates; returns false when no template applies)
+	"verifengine/vc"
+)
+
+// replayModel re-runs the refuting solver for the leaf values of the inputs,
+// renders an in-package Go test that calls the REAL code on those inputs and
+// evaluates the refuted clause concretely, and runs it with `go test -overlay`.
 func replayModel(p *vc.Program, prop string, o *oblOut, rep map[string]interface{}) (bool, interface{}) {
-	return false, nil
+	info := map[string]interface{}{}
+	if o.res == nil || o.obl == nil {
+		return false, nil
+	}
+	plan := o.res.BuildReplay(o.obl)
+	if plan.Unsup != "" {
+		info["unsupported"] = plan.Unsup
+		return false, info
+	}
+	text := o.res.SMTText(o.obl, false) + plan.LeafQuery(o.res.X.Builder())
+	if o.Backend != "cvc5" {
+		text = "(set-option :pp.decimal true)\n(set-option :pp.decimal_precision 24)\n" + text
+	}
+	dir := filepath.Join(verifDir, "replays", prop)
+	os.MkdirAll(dir, 0o755)
+	base := sanitizeFile(o.Function + "__" + o.Name)
+	smtPath := filepath.Join(dir, base+".values.smt2")
+	os.WriteFile(smtPath, []byte(text), 0o644)
+	out, err := runSolverRaw(o.Backend, smtPath, 60*time.Second)
+	if err != nil {
+		info["error"] = "solver rerun: " + err.Error()
+		return false, info
+	}
+	vals, perr := parseGetValue(out)
+	if perr != nil {
+		info["error"] = "model parse: " + perr.Error()
+		info["solver_output"] = truncate(out, 4000)
+		return false, info
+	}
+	if err := plan.SetValues(vals); err != nil {
+		info["error"] = err.Error()
+		return false, info
+	}
+	src, rerr := plan.Render()
+	if rerr != nil {
+		info["error"] = "render: " + rerr.Error()
+		return false, info
+	}
+	testPath := filepath.Join(dir, base+"_replay_test.go")
+	os.WriteFile(testPath, []byte(src), 0o644)
+	info["test_file"] = testPath
+	outText, confirmed := runReplayTest(plan.PkgDir, testPath)
+	info["go_test_output"] = truncate(outText, 6000)
+	info["confirmed"] = confirmed
+	var inputs []string
+	for _, l := range plan.Flat {
+		inputs = append(inputs, fmt.Sprintf("%s = %s", l.GoPath, l.Val))
+	}
+	info["model_inputs"] = inputs
+	return confirmed, info
+}
+
+func runReplayTest(pkgDir, testPath string) (string, bool) {
+	ov := map[string]map[string]string{"Replace": {filepath.Join(pkgDir, "zz_verif_replay_test.go"): testPath}}
+	ovData, _ := json.Marshal(ov)
+	ovPath := testPath + ".overlay.json"
+	os.WriteFile(ovPath, ovData, 0o644)
+	ctx, cancel := context.WithTimeout(context.Background(), 180*time.Second)
+	defer cancel()
+	cmd := exec.CommandContext(ctx, "go", "test", "-overlay", ovPath, "-vet=off", "-timeout", "60s", "-count=1", "-run", "TestZZVerifReplay", "-v", ".")
+	cmd.Dir = pkgDir
+	cmd.Env = append(os.Environ(), "GOFLAGS=-mod=mod", "GOPROXY=off", "GOSUMDB=off", "GOTOOLCHAIN=local")
+	var buf bytes.Buffer
+	cmd.Stdout = &buf
+	cmd.Stderr = &buf
+	cmd.Run()
+	out := buf.String()
+	return out, strings.Contains(out, "REPLAY-CONFIRMED")
+}
+
+func runSolverRaw(solver, file string, timeout time.Duration) (string, error) {
+	var argv []string
+	secs := int(timeout.Seconds())
+	switch solver {
+	case "cvc5":
+		argv = []string{"cvc5", fmt.Sprintf("--tlimit=%d", secs*1000), "--produce-models", file}
+	case "z3":
+		argv = []string{"z3", fmt.Sprintf("-T:%d", secs), file}
+	default:
+		argv = []string{"z3-new", fmt.Sprintf("-T:%d", secs), file}
+	}
+	ctx, cancel := context.WithTimeout(context.Background(), timeout+5*time.Second)
+	defer cancel()
+	cmd := exec.CommandContext(ctx, argv[0], argv[1:]...)
+	var buf bytes.Buffer
+	cmd.Stdout = &buf
+	cmd.Stderr = &buf
+	cmd.Run()
+	out := buf.String()
+	if !strings.HasPrefix(strings.TrimSpace(out), "sat") {
+		return out, fmt.Errorf("solver did not answer sat on rerun: %s", firstLineOf(out))
+	}
+	return out, nil
+}
+
+// parseGetValue extracts the values from "sat\n((t1 v1) (t2 v2) ...)".
+func parseGetValue(out string) ([]string, error) {
+	i := strings.Index(out, "((")
+	if i < 0 {
+		if strings.Contains(out, "()") {
+			return nil, nil
+		}
+		return nil, fmt.Errorf("no get-value response")
+	}
+	s := out[i:]
+	// find matching paren of the outer list
+	depth := 0
+	end := -1
+	for k, c := range s {
+		if c == '(' {
+			depth++
+		} else if c == ')' {
+			depth--
+			if depth == 0 {
+				end = k
+				break
+			}
+		}
+	}
+	if end < 0 {
+		return nil, fmt.Errorf("unbalanced get-value response")
+	}
+	inner := s[1:end]
+	var vals []string
+	for _, pair := range topLevel(inner) {
+		pair = strings.TrimSpace(pair)
+		if !strings.HasPrefix(pair, "(") {
+			continue
+		}
+		parts := topLevel(pair[1 : len(pair)-1])
+		if len(parts) != 2 {
+			return nil, fmt.Errorf("unexpected pair %q", truncate(pair, 200))
+		}
+		vals = append(vals, strings.TrimSpace(parts[1]))
+	}
+	return vals, nil
+}
+
+// topLevel splits an s-expression body into its top-level items.
+func topLevel(s string) []string {
+	var out []string
+	depth := 0
+	start := -1
+	for i, c := range s {
+		switch {
+		case c == '(':
+			if depth == 0 && start < 0 {
+				start = i
+			}
+			depth++
+		case c == ')':
+			depth--
+			if depth == 0 && start >= 0 {
+				out = append(out, s[start:i+1])
+				start = -1
+			}
+		case c == ' ' || c == '\n' || c == '\t' || c == '\r':
+			if depth == 0 && start >= 0 {
+				out = append(out, s[start:i])
+				start = -1
+			}
+		default:
+			if start < 0 {
+				start = i
+			}
+		}
+	}
+	if start >= 0 {
+		out = append(out, s[start:])
+	}
+	return out
 }
